@@ -190,10 +190,9 @@ int main(void)
   }
 #else
   /* replace_str: no write outside the static 1 KiB buffer; -DRLEN = length of the
-   * --delimiters argument (concrete per job; the escape sits at symbolic position) */
+   * --delimiters argument, -DRPOS = position of the escape (both concrete per job) */
   char *str = malloc(RLEN + 1); __CPROVER_assume(str != NULL);
-  size_t pos = nondet_size_t();
-  __CPROVER_assume(pos + 2 <= RLEN);
+  size_t pos = RPOS;    /* position of the escape, concrete per job */
   for (size_t i = 0; i < RLEN; i++) str[i] = 'a';
   str[RLEN] = 0;
   str[pos] = '\\'; str[pos + 1] = 't';
